@@ -3048,3 +3048,68 @@ def scalarise_slot_dicts(fn: ast.AST) -> int:
     if n_done:
         ast.fix_missing_locations(fn)
     return n_done
+
+
+# ----------------------------------------------------------------------------------------------------------------------
+# S24  f(*x[:K]) under `len(x) >= K` (x not re-bound in between): the slice has exactly K elements -> f(x[0], ..., x[K-1])
+def expand_sliced_star(fn) -> int:
+    def at_least(test, name):
+        """the largest K for which `test` being true implies len(name) >= K (0 if none)"""
+        best = 0
+        parts = test.values if isinstance(test, ast.BoolOp) and isinstance(test.op, ast.And) else [test]
+        for t in parts:
+            if isinstance(t, ast.Compare) and len(t.ops) == 1 and isinstance(t.left, ast.Call) and isinstance(t.left.func, ast.Name) and t.left.func.id == "len" \
+                    and len(t.left.args) == 1 and isinstance(t.left.args[0], ast.Name) and t.left.args[0].id == name and isinstance(t.comparators[0], ast.Constant) \
+                    and isinstance(t.comparators[0].value, int) and not isinstance(t.comparators[0].value, bool):
+                k = t.comparators[0].value
+                if isinstance(t.ops[0], (ast.GtE, ast.Eq)):
+                    best = max(best, k)
+                elif isinstance(t.ops[0], ast.Gt):
+                    best = max(best, k + 1)
+        return best
+
+    n = 0
+
+    def walk(stmts, known):
+        nonlocal n
+        for st in stmts:
+            if isinstance(st, (ast.FunctionDef, ast.AsyncFunctionDef, ast.ClassDef)):
+                continue
+            # expand in the expressions this statement evaluates itself
+            heads = [st] if not isinstance(st, (ast.If, ast.For, ast.While, ast.Try, ast.With)) else ([st.test] if isinstance(st, (ast.If, ast.While)) else [])
+            for h in heads:
+                for c in ast.walk(h):
+                    if isinstance(c, ast.Call):
+                        out = []
+                        for a in c.args:
+                            if isinstance(a, ast.Starred) and isinstance(a.value, ast.Subscript) and isinstance(a.value.value, ast.Name) and isinstance(a.value.slice, ast.Slice) \
+                                    and a.value.slice.lower is None and a.value.slice.step is None and isinstance(a.value.slice.upper, ast.Constant) \
+                                    and isinstance(a.value.slice.upper.value, int) and 0 < a.value.slice.upper.value <= known.get(a.value.value.id, 0):
+                                out += [ast.Subscript(value=ast.Name(id=a.value.value.id, ctx=ast.Load()), slice=ast.Constant(value=i), ctx=ast.Load()) for i in range(a.value.slice.upper.value)]
+                                n += 1
+                            else:
+                                out.append(a)
+                        c.args = out
+            stored = {x.id for x in ast.walk(st) if isinstance(x, ast.Name) and isinstance(x.ctx, (ast.Store, ast.Del))}
+            if isinstance(st, ast.If):
+                inner = dict(known)
+                for name in {x.id for x in ast.walk(st.test) if isinstance(x, ast.Name)}:
+                    k = at_least(st.test, name)
+                    if k:
+                        inner[name] = max(inner.get(name, 0), k)
+                walk(st.body, inner)
+                walk(st.orelse, dict(known))
+            elif isinstance(st, (ast.For, ast.While)):
+                inner = {k: v for k, v in known.items() if k not in stored}
+                walk(st.body, dict(inner))
+                walk(st.orelse, dict(inner))
+            elif isinstance(st, ast.Try):
+                inner = {k: v for k, v in known.items() if k not in stored}
+                for blk in (st.body, st.orelse, st.finalbody, *[h.body for h in st.handlers]):
+                    walk(blk, dict(inner))
+            elif isinstance(st, ast.With):
+                walk(st.body, known)
+            for name in stored:
+                known.pop(name, None)
+    walk(fn.body, {})
+    return n
